@@ -7,6 +7,7 @@ import Pycoin.Proofs.CurveFacts.bls12_381
 import Pycoin.Proofs.CurveFacts.Order
 import Pycoin.Proofs.NativeGen
 import Pycoin.Proofs.NativeFacts
+import Pycoin.Proofs.NativeSecp
 /-!
 C02 — elliptic-curve arithmetic is the group law.  Property theorems (helper lemmas: `Proofs/Field.lean`,
 `Proofs/Group.lean`).
@@ -444,6 +445,33 @@ theorem C02_openssl_generator_secp256r1 {L : LibCrypto} (hL : LibCryptoOk L secp
     Gen.mulG (Ossl.methods L secp256r1) secp256r1 bf e = Curve.mulG secp256r1 bf e :=
   ⟨C02_openssl_rawMul hL curveFits_secp256r1 ecdsaOk_secp256r1 e,
     C02_openssl_blindedMul hL curveFits_secp256r1 ecdsaOk_secp256r1 bf e⟩
+
+/-! ### the libsecp256k1 class (`native/secp256k1.py`): `__mul__` and `multiply`
+
+libsecp256k1 is ABSENT from the sandbox: glue model and contract `LibSecpOk` (`Proofs/NativeSecp.lean`) are tied to the
+source by reading only; the theorems say what follows IF the library does what its documentation says. -/
+
+/-- `Optimizations.__mul__(e)` of the libsecp256k1 class (`secp256k1_ec_pubkey_create`, no blinding) = the blinded
+`Generator.__mul__(e)` of the pure class, every integer `e`, every blinding factor -/
+theorem C02_libsecp_mul {c : CurveParams} [Good c] {S : LibSecp256k1} (hS : LibSecpOk S c) (ok : ECDSAOk c)
+    (hp256 : c.p ≤ 2 ^ 256) (bf e : Int) : Secp.mul S c e = Curve.mulG c bf e := by
+  obtain ⟨denP, denS, spec⟩ := hS
+  exact secp_mul_eq spec ok hp256 bf e
+
+/-- `Optimizations.multiply(P, e)` of the libsecp256k1 class (`pubkey_parse`, `pubkey_tweak_mul`) = the pure `multiply`
+for every REDUCED curve point of the `n`-torsion (infinity included) and every integer `e`.  For unreduced coordinates
+the glue does not reduce: negative or `≥ 2²⁵⁶` raises `OverflowError`, `p ≤ x < 2²⁵⁶` makes `pubkey_parse` fail and the
+method returns the Python value `False` (model: `MulRes.pyFalse`) — the backends differ there. -/
+theorem C02_libsecp_multiply {c : CurveParams} [Good c] {S : LibSecp256k1} (hS : LibSecpOk S c) (ok : ECDSAOk c)
+    (hp256 : c.p ≤ 2 ^ 256) (P : Pt) (hP : OnCurve c P) (rP : Reduced c P) (hT : (c.n : Int) • toPoint c P = 0) (e : Int) :
+    Secp.multiply S c P e = (Curve.multiply c P e).map MulRes.pt := by
+  obtain ⟨denP, denS, spec⟩ := hS
+  exact secp_multiply_eq spec ok hp256 P hP rP hT e
+
+theorem C02_libsecp_multiply_secp256k1 {S : LibSecp256k1} (hS : LibSecpOk S secp256k1) (P : Pt)
+    (hP : OnCurve secp256k1 P) (rP : Reduced secp256k1 P) (e : Int) :
+    Secp.multiply S secp256k1 P e = (Curve.multiply secp256k1 P e).map MulRes.pt :=
+  C02_libsecp_multiply hS ecdsaOk_secp256k1 (by decide +kernel) P hP rP (order_all_secp256k1 _) e
 
 /-! evaluated examples (tests): the glue model over the pure-model libcrypto on the toy curve — zero, negative and
 over-order scalars, unreduced coordinates, infinity, an operand without inverse -/
